@@ -696,3 +696,41 @@ fault("c17-program-state-drops-flag", "C17", "R17d", (TALPY, "\t\t\t\t,self.tagC
 fault("c18-program-state-drops-flag", "C18", "R18c", (TALPY, "\t\t\t\t,self.tagContent\n\t\t\t\t,self.localVarsDefined)", "\t\t\t\t,self.tagContent)"),
       (TALPY, "self.repeatAttributesCopy,self.tagContent,self.localVarsDefined = vars", "self.repeatAttributesCopy,self.tagContent = vars"))
 fault("c12-linkfiles-read-after-walk", "C12", "R12a", (UMN, "        fileentriesdict = {}\n        for entry in self.fileentries:", "        for lf in self.linkentries:\n            self.processLinkFile(lf.selector)\n        fileentriesdict = {}\n        for entry in self.fileentries:"))
+
+
+# ======================================================================= round 4 (rules added for seeded changes C01-d ... C20-d)
+fault("c01-stat-oracle", "C01", "R01l", (HM, '    raise GopherExceptions.FileNotFound(selector, "no handler found", protocol)\n',
+      '    if statresult is not None:\n        raise GopherExceptions.FileNotFound(selector, "not servable", protocol)\n    raise GopherExceptions.FileNotFound(selector, "no handler found", protocol)\n'))
+fault("c01-stat-failure-answers", "C01", "R01l", (HM, "        statresult = vfs.stat(selector)\n    except (OSError, ValueError):\n",
+      "        statresult = vfs.stat(selector)\n    except (OSError, ValueError):\n        raise GopherExceptions.FileNotFound(selector, \"no such file\", protocol)\n"))
+twin("c01-twin-notfound-text", "C01", (HM, '"no handler found"', '"no handler accepts this selector"'))
+_MEMO = ("class HTTPProtocol(BaseGopherProtocol):", "import functools\n\n\n@functools.lru_cache(maxsize=64)\ndef _split(request):\n    return %s\n\n\nclass HTTPProtocol(BaseGopherProtocol):")
+fault("c02-memo-mutable-result", "C02", "R02e", (HTTP, _MEMO[0], _MEMO[1] % '[arg.strip() for arg in request.split(" ")]'),
+      (HTTP, '        self.requestparts = [arg.strip() for arg in self.request.split(" ")]', "        self.requestparts = _split(self.request)"))
+fault("c14-memo-mutable-result", "C14", "R14a", (HTTP, _MEMO[0], _MEMO[1] % '[arg.strip() for arg in request.split(" ")]'),
+      (HTTP, '        self.requestparts = [arg.strip() for arg in self.request.split(" ")]', "        self.requestparts = _split(self.request)"))
+twin("c02-twin-memo-immutable", "C02", (HTTP, _MEMO[0], _MEMO[1] % 'tuple(arg.strip() for arg in request.split(" "))'),
+     (HTTP, '        self.requestparts = [arg.strip() for arg in self.request.split(" ")]', "        self.requestparts = list(_split(self.request))"))
+fault("c06-wap-search-double-encoded", "C06", "R06h", (WAP, "% url  # .replace('%', '%25')", '% url.replace("%", "%25")'))
+fault("c05-wap-search-double-encoded", "C05", "R05g", (WAP, "% url  # .replace('%', '%25')", '% url.replace("%", "%25")'))
+fault("c07-cache-saved-before-merge", "C07", "R07i", (DIR, "        self.prep_entries()\n        return True  # Did something.\n", "        self.prep_entries()\n        self.savecache()\n        return True  # Did something.\n"))
+fault("c10-cache-saved-before-merge", "C10", "R10c", (DIR, "        self.prep_entries()\n        return True  # Did something.\n", "        self.prep_entries()\n        self.savecache()\n        return True  # Did something.\n"))
+fault("c08-empty-directory-fastpath", "C08", "R08b", (DIR, "        self.prep_initfiles()\n\n        # Sort the list.\n",
+      "        self.prep_initfiles()\n\n        if not self.files:\n            self.fileentries = []\n            return False\n\n        # Sort the list.\n"))
+fault("c12-skipped-entry-removed-from-walked-list", "C12", "R12d", (DIR, "                # An unservable entry must not take down the whole listing.\n                continue\n\n    def prep_entriesappend",
+      "                # An unservable entry must not take down the whole listing.\n                self.files.remove(file)\n                continue\n\n    def prep_entriesappend"))
+twin("c12-twin-skipped-entry-noted", "C12", (DIR, "                # An unservable entry must not take down the whole listing.\n                continue\n\n    def prep_entriesappend",
+     "                # An unservable entry must not take down the whole listing.\n                self.skipped = getattr(self, \"skipped\", 0) + 1\n                continue\n\n    def prep_entriesappend"))
+fault("c13-normalised-after-escaping", "C13", "R13a", (HTTP, "import html\n", "import html\nimport unicodedata\n"),
+      (HTTP, "        return self.getrenderstr(entry, html.escape(url))", '        return unicodedata.normalize("NFKC", self.getrenderstr(entry, html.escape(url)))'))
+twin("c13-twin-normalised-before-escaping", "C13", (HTTP, "import html\n", "import html\nimport unicodedata\n"),
+     (HTTP, "        return self.getrenderstr(entry, html.escape(url))", '        return self.getrenderstr(entry, html.escape(unicodedata.normalize("NFC", url)))'))
+fault("c16-stat-mode-from-archive", "C16", "R16h", (ZIP, "            33188,  # mode\n", "            (zi.external_attr >> 16) or 33188,  # mode\n"))
+twin("c16-twin-stat-mode-spelled", "C16", (ZIP, "            33188,  # mode\n", "            stat.S_IFREG | 0o644,  # mode\n"))
+fault("c20-zip-write-converts-oserror", "C20", "R20e", (ZIP, "    def write(self, wfile):\n        self.handler.write(wfile)\n",
+      "    def write(self, wfile):\n        try:\n            self.handler.write(wfile)\n        except (zipfile.BadZipFile, OSError) as e:\n            raise GopherExceptions.FileNotFound(self.selector, str(e), self.protocol)\n"))
+twin("c20-twin-zip-write-badzip-only", "C20", (ZIP, "    def write(self, wfile):\n        self.handler.write(wfile)\n",
+     "    def write(self, wfile):\n        try:\n            self.handler.write(wfile)\n        except zipfile.BadZipFile as e:\n            raise OSError(str(e))\n"))
+fault("c15-entry-depends-on-protocol", "C15", "R15g", (FILE, "    def getentry(self):\n", "    def getentry(self):\n        self.wantsea = getattr(self.protocol, \"wantsattributes\", True)\n"))
+fault("c06-entry-depends-on-protocol", "C06", "R06i", (FILE, "    def getentry(self):\n", "    def getentry(self):\n        self.wantsea = getattr(self.protocol, \"wantsattributes\", True)\n"))
+fault("c05-title-no-collapse", "C05", "R05h", (HTML, '            title = re.sub(r"[\\s]+", " ", parser.titlestr)\n', "            title = parser.titlestr\n"))
